@@ -39,7 +39,7 @@ CLAIMED = {
             "query-on-simulated-store-states vs reference evaluator, rank-based oracle"),
     "C11": ("E1-doc", "4/C11",
             "Each seeded document+URL is marshaled twice, then as a deep-equal twin with to-many IDs / field-selection names / relationship-data names / included list permuted, then under adversarial map-iteration orders (sorted, reverse, shuffle, one site flipped) and after re-parsing the URL under another map order: all outputs must be byte-identical; a before/after snapshot of everything read from the resources and the URL must be unchanged (order-exempt parts compared as sets).",
-            "Map order is a scheduler the simulator owns (all 41 map-range sites of the package are rewritten in a scratch copy; stdlib json/url sort their keys). Included resources have distinct IDs. Inputs are sampled.",
+            "Map order is a scheduler the simulator owns (every map-range site of the package (43 today) are rewritten in a scratch copy; stdlib json/url sort their keys). Included resources have distinct IDs. Inputs are sampled.",
             "seeded map-order scheduling + permutation metamorphism, byte-equality oracle"),
     "C03": ("E1-doc", "4/C03",
             "Documents are built through seeded histories of 0..12 Document.Include calls (repeats, primary-data resources, same ID under another type) on every primary-data collection kind incl. the Resources collection Range returns, marshaled under a seeded map order and checked by an independent JSON:API structure validator (top-level members, data xor errors, included only with data, resource/relationship object shape, self links) plus no duplicate type/ID across primary data and included.",
